@@ -897,11 +897,16 @@ func (s stats) String() string {
 func main() {
 	out := flag.String("out", "/tmp/agent_transformer/out", "output directory")
 	seed := flag.Int64("seed", 1, "seed")
-	n := flag.Int("n", 2000, "number of transformer cases")
-	per := flag.Int("per", 250, "cases per file")
+	tier := flag.String("tier", "quick", "quick|thorough")
+	per := flag.Int("per", 125, "cases per file")
+	nn := 700
+	n := &nn
 	flag.IntVar(&maxOps, "maxops", 12, "maximum length of the operation lists (sort.Slice is stable only up to 12)")
 	probes := flag.Bool("probes", false, "run the ill-typed TransformationInfo / nil model probes and exit")
 	flag.Parse()
+	if *tier == "thorough" {
+		nn = 12000
+	}
 	if *probes {
 		runProbes()
 		return
@@ -1155,6 +1160,24 @@ func main() {
 	b.write(*out, 1000)
 
 	fmt.Print(st.String())
+	direct := []map[string]interface{}{}
+	for k, v := range st {
+		if strings.Contains(k, "panic") && v > 0 {
+			direct = append(direct, map[string]interface{}{"oracle": "transformer_never_panics", "what": fmt.Sprintf("%s: %d", k, v),
+				"case": map[string]interface{}{"generator": "gen_transformer", "class": k}})
+		}
+	}
+	samples := []string{}
+	if len(tr.cases) > 0 {
+		c := tr.cases[0]
+		if len(c) > 700 {
+			c = c[:700] + "..."
+		}
+		samples = append(samples, c)
+	}
+	sj, _ := json.Marshal(map[string]interface{}{"histograms": map[string]interface{}{"classes": st}, "samples": samples,
+		"direct_violations": direct, "extra": map[string]interface{}{"max_operation_list": maxOps}})
+	fmt.Println("STATS " + string(sj))
 }
 
 // inputs outside the tinfo record of the model: ill-typed info members, nil model
